@@ -7,12 +7,15 @@ import numpy as np
 
 from harness.common import core
 from harness.gen import crystalcaches as gen_cc
+from harness.gen import sgdata as gen_sg
 
 ID = "C14"
-LEAN_TARGETS = ["ChmpyVerif.Props.C14"]
+LEAN_TARGETS = ["ChmpyVerif.Props.C14", "ChmpyVerif.Props.C14Groups"]
 T = "ChmpyVerif.Props.C14."
 THEOREMS = [T + n for n in ("fresh_inv", "step_inv", "every_answer_fresh", "tables_clear_all", "every_answer_fresh_generated",
                             "queries_pure", "repeat_equal", "stale_if_not_cleared")]
+# which groups have both trigonal settings: read off the regenerated table (kernel-checked), not asked of the code under test
+THEOREMS += ["ChmpyVerif.Props.C14.both_settings_groups"]
 TRUSTED = [
     "translator harness/gen/crystalcaches.py (AST scan of crystal.py: hasattr/getattr/setattr memo pattern, methods assigning "
     "self.unit_cell / space_group / asymmetric_unit[.positions], delattr loops) -> Gen/CrystalCaches.lean",
@@ -40,6 +43,7 @@ QUERIES = ["unit_cell_atoms", "unit_cell_connectivity", "unit_cell_molecules", "
 
 def gen(ctx):
     gen_cc.generate()
+    gen_sg.generate()      # the table `both_settings_groups` is checked against
 
 
 def synthetic():
